@@ -86,9 +86,13 @@ pub(super) enum Action {
 /// commands.
 #[derive(Clone, Copy, Debug, PartialEq)]
 pub(super) enum SignificantInstr {
+    /// Call a subroutine. `JSR`, `JSRR` or `CALL`.
+    ///
+    /// Used by "step" (step over).
+    Call,
     /// Return from a subroutine. `RET` or `RETS`.
     ///
-    /// Used by "finish".
+    /// Used by "finish" and "step" (step over).
     Return,
     /// Halt. `TRAP 0x25`.
     ///
@@ -101,6 +105,10 @@ impl TryFrom<u16> for SignificantInstr {
     fn try_from(instr: u16) -> Result<Self, Self::Error> {
         let opcode = instr >> 12;
         match opcode {
+            // `JSR` and `JSRR`
+            0x4 => Ok(SignificantInstr::Call),
+            // `CALL` is `0xD(stack) 0b11 ...`
+            0xD if (instr >> 10) & 0b11 == 0b11 => Ok(SignificantInstr::Call),
             // `RET` is `JMP R7`
             0xC if (instr >> 6) & 0b111 == 7 => Ok(SignificantInstr::Return),
             // `RETS` is `0xD(stack) 0b10 ...`
@@ -357,8 +365,14 @@ impl Debugger {
 
             Command::StepOver => {
                 Self::check_halt(instr)?;
-                self.status = Status::StepOver {
-                    return_addr: state.pc() + 1,
+                self.status = if instr == Some(SignificantInstr::Call) {
+                    Status::StepOver {
+                        return_addr: state.pc().wrapping_add(1),
+                    }
+                } else {
+                    // Any other instruction is simply executed, wherever it leaves the PC
+                    // (taken branch, `JMP`, `RET`, ...)
+                    Status::StepInto { count: 0 }
                 };
                 self.should_echo_pc = true;
             }
